@@ -146,6 +146,18 @@ def kernel_index(S, kind, B, diag):
                 got = S.must_not_raise("lazy K[%d] (%s) of a %s kernel" % (b, nm, kind), lambda: dense(lz[b]))
                 if S.check_concrete(tuple(got.shape) == want.shape, "lazy K[%d] shape (%s)" % (b, nm), "%s vs %s" % (tuple(got.shape), want.shape)):
                     S.prove_eq(got, want, "lazy K[%d] (%s) = replica %d" % (b, nm, b))
+        # data with one MORE batch dimension than the kernel: lazy K[i, j] = replica j on the data of element (i, j)
+        e1 = torch.stack([x1, x1.flip(-2)]); e2 = torch.stack([x2, x2.flip(-2)])
+        lz2 = k(e1, e2)
+        for (i, j) in ((1, 0), (0, B - 1), (1, B - 1)):
+            rep = _mk(kind, ())
+            with torch.no_grad():
+                for nme, p in rep.named_parameters():
+                    p.copy_(src[nme][j])
+            want = as_sym_arr(SH.get(dense(rep(e1[i, j], e2[i, j]))))
+            got = S.must_not_raise("lazy K[%d, %d] (data with an extra leading batch dimension) of a %s kernel" % (i, j, kind), lambda: dense(lz2[i, j]))
+            if S.check_concrete(tuple(got.shape) == want.shape, "lazy K[%d, %d] shape" % (i, j), "%s vs %s" % (tuple(got.shape), want.shape)):
+                S.prove_eq(got, want, "lazy K[%d, %d] (extra leading data batch dimension) = replica %d on element (%d, %d)" % (i, j, j, i, j))
         if diag:
             dg = k(x1, x1, diag=True)
             for b in range(B):
@@ -462,7 +474,7 @@ def scenarios(tier, seed):
             add("mean_noise", pbs=list(p), dbs=list(d))
         add("exact_gp", n=2, m=1, shared_x=True)
         add("exact_gp", n=2, m=1, shared_x=False)
-        for kind in ("rbf+linear", "rbf*linear", "scale(rbf+rq)", "scale_rbf", "multitask"):
+        for kind in ("rbf+linear", "rbf*linear", "scale(rbf+rq)", "scale_rbf", "multitask", "rbf"):
             add("kernel_index", kind=kind, B=2, diag=True)
         add("inducing_index", zbatch=False, mode="eval")
         add("inducing_index", zbatch=True, mode="train")
